@@ -313,6 +313,14 @@ def compare_call_execute(base):
                 else:
                     ok = cb[1] is e or same_tr(tr(cb[1].ident), tr(e.ident))
                     why = "a propagating exception propagates from both"
+            elif e.tag == "raised-by-code" and cb[0] == "ok" and isinstance(cb[1], Obj) and cb[1].fields.get("ok") is False:
+                # degenerate configuration max_attempts < 1: call() has no exception to re-raise and raises RuntimeError("Retry attempts
+                # exhausted with no captured exception"); execute() reports MAX_ATTEMPTS_GLOBAL with attempts == 0 - the same outcome
+                sr_cls = it.tree.cls("redress.errors:StopReason")
+                ok = z3.And(it.lattice.isinstance_cond(e.cls_t, RuntimeError),
+                            eq_formula(tr(cb[1].fields["stop_reason"]), it.enum_const(sr_cls, "MAX_ATTEMPTS_GLOBAL")),
+                            eq_formula(tr(cb[1].fields["attempts"]), 0))
+                why = "no attempts at all: RuntimeError <-> MAX_ATTEMPTS_GLOBAL with attempts == 0"
             else:
                 if e.tag in ("raised-by-code", "sleep_fn-invalid-return"):
                     # an exception object constructed by the library on both sides: same class, same origin
